@@ -75,7 +75,11 @@ def run_cases(exe, lines, tag, args=(), env=None):
     with open(cf, "w") as f:
         for ln in lines:
             f.write(ln + "\n")
-    rc, err = run_side(exe, cf, of, args=args, env=env)
+    try:
+        rc, err = run_side(exe, cf, of, args=args, env=env)
+    except subprocess.TimeoutExpired:
+        print("check: %s did not finish %d cases within the time limit of one hour (machinery, not a verdict)" % (os.path.basename(exe), len(lines)))
+        sys.exit(2)
     outs = open(of, errors="replace").read().split("\n")
     if outs and outs[-1] == "":
         outs.pop()
